@@ -112,7 +112,9 @@ pub fn run(ctx: &Ctx) -> i32 {
             Expansion::Ok(_) => {
                 // shrink with proptest while the same operator still yields an accepted request
                 let op = f.op;
-                let (best, steps) = check::shrink(&mut trees[i], 300, |d| {
+                // (only the first violations are shrunk: with thousands of accepted requests the shrinking would take hours)
+                let budget = if rep.violations.len() < 6 { 300 } else { 0 };
+                let (best, steps) = check::shrink(&mut trees[i], budget, |d| {
                     let c2 = eval(d);
                     is_failure(&c2) && c2.fault.as_ref().map(|f| f.op) == Some(op)
                 });
